@@ -106,6 +106,7 @@ def run(ctx, rep, tier):
     rep.rule("P3", "finalize() before the solver sees the matrix", 1)
     rep.rule("QA", "axis typing over the global placer's units", 50)
     rep.rule("TW", "X/Y twins agree up to renaming", 8)
+    rep.rule("XC", "global-placement callbacks observe the exported placement of the step they announce", 1)
     rep.rule("CC", "cell conservation: hierarchy-only bin choice when binCells_ is rebuilt; emptied bins are refilled on every path", 5)
     check_blend(ctx, rep)
     check_export(ctx, rep)
@@ -128,6 +129,8 @@ def run(ctx, rep, tier):
             rep.holds("QA", f.decl, f, "%s is axis-consistent" % f.short)
     check_twins(ctx, rep)
     check_conservation(ctx, rep)
+    from .c02 import check_export_before_callback
+    check_export_before_callback(ctx, rep, "XC", (CQ + "GlobalPlacer",))
 
 
 # ---- CC: cell conservation ------------------------------------------------------------------
